@@ -66,6 +66,7 @@ func (a *asyncEmitter) enqueue(record map[string]any) {
 	a.mu.Lock()
 	defer a.mu.Unlock()
 	if a.closed {
+		verifAt("async.enqueue", a, record, "closed")
 		return
 	}
 	if a.dropped > 0 {
@@ -76,11 +77,13 @@ func (a *asyncEmitter) enqueue(record map[string]any) {
 	select {
 	case a.ch <- record:
 		a.dropped = 0
+		verifAt("async.enqueue", a, record, "sent")
 	default:
 		// Undo the stamp: this record is not the one that got through, and
 		// the count must survive to ride the one that does.
 		delete(record, "dropped_records")
 		a.dropped++
+		verifAt("async.enqueue", a, record, "full")
 	}
 }
 
@@ -94,6 +97,7 @@ func (a *asyncEmitter) close() {
 	}
 	a.closed = true
 	close(a.ch)
+	verifAt("async.close", a)
 	a.mu.Unlock()
 	<-a.done
 }
